@@ -10,6 +10,7 @@ sys.path.insert(0, str(HERE / 'tools'))
 HOOK_COMMITS = json.loads((HERE / 'tools' / 'hook_commits.json').read_text()) if (HERE / 'tools' / 'hook_commits.json').exists() else []
 
 props = [json.loads(l) for l in open(HERE / 'properties.jsonl')]
+INTEGRATED = set(json.loads((HERE / 'tools' / 'claimed.json').read_text()))   # properties reviewed and integrated
 checks, na = [], []
 for p in props:
     pid = p['id']
@@ -18,7 +19,7 @@ for p in props:
         meta = mod.META
     except ModuleNotFoundError:
         meta = None
-    if meta is None or not meta.get('claimed', True):
+    if meta is None or not meta.get('claimed', True) or pid not in INTEGRATED:
         reason = (meta or {}).get('na_reason', 'check not built yet (work in progress; planned in DESIGN.md section 6 %s)' % pid)
         na.append({'property_id': pid, 'reason': reason})
         continue
